@@ -242,6 +242,8 @@ macro_rules! elem_drop {
 
 // name, align, pad  (size = round_up(2 + pad, align))
 elem_plain!(H2, 2, 0);
+elem_plain!(F4, 1, 2);   // 4 bytes, align 1: power-of-two size larger than the alignment
+elem_drop!(P8D, 2, 6);  // 8 bytes, align 2, drop glue
 elem_drop!(B3D, 1, 1);
 elem_plain!(W8, 8, 6);
 elem_drop!(W8D, 8, 6);
